@@ -332,8 +332,14 @@ func TestVerifC12(t *testing.T) {
 		zzvReq{desc: "empty body", method: "POST", path: "/upload/x", body: nil, class: "invalid"},
 		zzvReq{desc: "number", method: "POST", path: "/upload/x", body: []byte("42"), class: "invalid"},
 		zzvReq{desc: "string", method: "POST", path: "/upload/x", body: []byte(`"2023-01-01"`), class: "invalid"},
-		zzvReq{desc: "trailing garbage", method: "POST", path: "/upload/x", body: append(append([]byte{}, valid...), []byte("}}garbage")...), class: "dontcare"},
-		zzvReq{desc: "two values", method: "POST", path: "/upload/x", body: append(append([]byte{}, valid...), valid...), class: "dontcare"},
+		// The body must be one JSON report: anything but white space after it makes the body something else.
+		zzvReq{desc: "trailing garbage", method: "POST", path: "/upload/x", body: append(append([]byte{}, valid...), []byte("}}garbage")...), class: "invalid"},
+		zzvReq{desc: "two values", method: "POST", path: "/upload/x", body: append(append([]byte{}, valid...), valid...), class: "invalid"},
+		zzvReq{desc: "trailing report with hostile week", method: "POST", path: "/upload/x", body: append(append([]byte{}, valid...), []byte(`{"Week":"../../x"`)...), class: "invalid"},
+		zzvReq{desc: "trailing newline", method: "POST", path: "/upload/x", body: append(append([]byte{}, valid...), '\n'), class: "valid"},
+		zzvReq{desc: "trailing white space within the limit", method: "POST", path: "/upload/x", body: append(append([]byte{}, valid...), bytes.Repeat([]byte(" \n"), 1000)...), class: "valid"},
+		zzvReq{desc: "trailing white space beyond the limit", method: "POST", path: "/upload/x", body: append(append([]byte{}, valid...), bytes.Repeat([]byte(" "), 4*zzvLimit)...), class: "invalid"},
+		zzvReq{desc: "trailing garbage beyond the limit", method: "POST", path: "/upload/x", body: append(append([]byte{}, valid...), bytes.Repeat([]byte("x"), 4*zzvLimit)...), class: "invalid"},
 		zzvReq{desc: "duplicate Week key (last invalid)", method: "POST", path: "/upload/x", body: []byte(`{"Week":"2023-01-01","Week":"../x","Config":"v1.0.0","X":0.5}`), class: "invalid"},
 		zzvReq{desc: "duplicate Week key (last valid)", method: "POST", path: "/upload/x", body: []byte(`{"Week":"../x","Week":"2023-01-01","Config":"v1.0.0","X":0.5}`), class: "valid"},
 		zzvReq{desc: "lower-case keys", method: "POST", path: "/upload/x", body: []byte(`{"week":"2023-01-01","config":"v1.0.0","x":0.5}`), class: "dontcare"},
